@@ -208,6 +208,10 @@ func (p *ReaderSkipDecoder) SkipN(n int) (buf []byte, err error) {
 		var nn int
 		nn, err = p.r.Read(buf[i:])
 		i += nn
+		if i >= n {
+			// like io.ReadFull: all n bytes were read, an error delivered with the last of them is not a failure
+			err = nil
+		}
 	}
 	if err != nil {
 		return
